@@ -538,6 +538,7 @@ class Views:
         self.cname = cname
         self.prefix = prefix
         self.problems = []
+        self.vandal = False
 
     def bad(self, view, symptom, what):
         self.problems.append(('%s%s.%s:%s' % (self.prefix, self.cname, view, symptom), what))
@@ -551,6 +552,11 @@ class Views:
         if got[1] != want:
             self.bad(view, 'mismatch', '%s%s gives %r, the model says %r' % (view, note, got[1], want))
             return False
+        if self.vandal and isinstance(got[1], list):
+            # a list handed out by the object belongs to the caller: it is
+            # edited here, and the views are read once more afterwards
+            got[1].append(-7)
+            got[1].reverse()
         return True
 
     def non_vertex(self, view, got, u):
@@ -836,14 +842,48 @@ def check_bipartite(G, dims, E, V, kind, roundtrip=True):
         V.problems.extend(W.problems)
 
 
+def vandalize(st):
+    """What a caller may do with the lists the accessors hand out."""
+    G = st.G
+    got = []
+    try:
+        if st.kind == 'simple':
+            got = [G.neighbors(u) for u in range(1, st.dims[0] + 1)]
+        elif st.kind == 'directed':
+            got = [G.successors(u) for u in range(1, st.dims[0] + 1)] + \
+                  [G.predecessors(u) for u in range(1, st.dims[0] + 1)]
+        else:
+            got = [G.right_neighbors(u) for u in range(1, st.dims[0] + 1)] + \
+                  [G.left_neighbors(v) for v in range(1, st.dims[1] + 1)]
+    except Exception:
+        return
+    for x in got:
+        if isinstance(x, list):
+            x.append(-7)
+            x.reverse()
+            OBS['returned_lists_edited_by_the_caller'] += 1
+
+
 def invariant(st):
     V = Views(CLSNAME[st.kind])
+    V.vandal = True
     if st.kind == 'simple':
         check_simple(st.G, st.dims[0], st.E, V)
     elif st.kind == 'directed':
         check_directed(st.G, st.dims[0], st.E, V)
     else:
         check_bipartite(st.G, st.dims, st.E, V, st.kind)
+    if not V.problems:
+        # second reading, after the caller edited every list it was given
+        vandalize(st)
+        W = Views(CLSNAME[st.kind], prefix='after-the-caller-edited-returned-lists:')
+        if st.kind == 'simple':
+            check_simple(st.G, st.dims[0], st.E, W, roundtrip=False)
+        elif st.kind == 'directed':
+            check_directed(st.G, st.dims[0], st.E, W, roundtrip=False)
+        else:
+            check_bipartite(st.G, st.dims, st.E, W, st.kind, roundtrip=False)
+        V.problems.extend(W.problems)
     # informative only: does the object equal the one built from scratch?
     try:
         F = from_scratch(st)
